@@ -14,10 +14,10 @@ namespace RegexVerif.Parser
 
 set_option hygiene false in
 macro "wp_rule3 " r:ident c:term : tactic =>
-  `(tactic| refine $r E (by apply $c <;> adv) (by adv) ?_ ?_)
+  `(tactic| refine $r E (by apply $c <;> first | assumption | apply hsub | apply hnext | adv) (by adv) ?_ ?_)
 set_option hygiene false in
 macro "wp_rule4 " r:ident c:term : tactic =>
-  `(tactic| refine $r E (by apply $c <;> adv) (by adv) (by adv) ?_ ?_)
+  `(tactic| refine $r E (by apply $c <;> first | assumption | apply hsub | apply hnext | adv) (by adv) (by adv) ?_ ?_)
 
 open Lean Elab Tactic Meta in
 /-- one step of symbolic execution on a goal `wp m Q R s` (see the file header) -/
